@@ -3,7 +3,7 @@
 # Confirms in a scratch worktree of /repo HEAD: patch applies, test suite passes with it, demo fails with it and passes without.
 set -u
 src=$1; id=$2
-W=/tmp/wt/verify
+W=/tmp/wt2/verify
 [ -d $W ] || git -C /repo worktree add --detach $W HEAD >/dev/null 2>&1
 cd $W && git checkout -q --detach $(git -C /repo rev-parse HEAD) && git checkout -- . 
 git apply --3way $src/patch.diff 2>/tmp/apply.err || git apply $src/patch.diff || { echo "$id: PATCH DOES NOT APPLY"; cat /tmp/apply.err; git checkout -- .; exit 1; }
